@@ -66,7 +66,12 @@ def apply_single(m, op: dict) -> None:
     elif o == "add_derived":
         m.add_derived(n, fnlib.FNS[op["call"]["fn"]], args=list(op["call"]["args"]))
     elif o == "update_derived":
-        m.update_derived(n, fnlib.FNS[op["call"]["fn"]], args=list(op["call"]["args"]))
+        kw = {}
+        if op["mode"] in ("both", "fn"):
+            kw["fn"] = fnlib.FNS[op["call"]["fn"]]
+        if op["mode"] in ("both", "args"):
+            kw["args"] = list(op["call"]["args"])
+        m.update_derived(n, **kw)
     elif o == "remove_derived":
         m.remove_derived(n)
     elif o == "add_reaction":
@@ -74,8 +79,10 @@ def apply_single(m, op: dict) -> None:
     elif o == "update_reaction":
         kw = {}
         if op["call"]["fn"] != "none":
-            kw["fn"] = fnlib.FNS[op["call"]["fn"]]
-            kw["args"] = list(op["call"]["args"])
+            if op["mode"] in ("both", "fn"):
+                kw["fn"] = fnlib.FNS[op["call"]["fn"]]
+            if op["mode"] in ("both", "args"):
+                kw["args"] = list(op["call"]["args"])
         if not op["keepst"]:
             kw["stoichiometry"] = _st(op["st"])
         m.update_reaction(n, **kw)
@@ -305,6 +312,18 @@ def _rand_call(rnd, names):
     return {"fn": f, "args": [rnd.choice(names) for _ in range(fnlib.ARITY[f])]}
 
 
+_SAME = {0: ["one", "two"], 1: ["inc", "dbl", "neg", "id"], 2: ["mul", "add", "sub"], 3: ["mad"]}
+
+
+def _partial_call(rnd, names, existing):
+    """A full call, or -- keeping the component's current arity -- only a new function / only new arguments."""
+    if existing is None or rnd.random() < 0.4:
+        return _rand_call(rnd, names), "both"
+    k = len(existing.args)
+    mode = rnd.choice(["fn", "args"])
+    return {"fn": rnd.choice(_SAME[k]), "args": [rnd.choice(names) for _ in range(k)]}, mode
+
+
 def _rand_st(rnd, m):
     vs = list(m.get_variable_names())
     ps = list(m.get_parameter_names())
@@ -341,13 +360,18 @@ def rand_op(rnd: random.Random, m) -> dict:
         op["st"] = {} if rnd.random() < 0.5 else {rnd.choice(fl): 2}
     elif kind == "make_variable_static":
         op["iv"] = {"k": "none"} if rnd.random() < 0.5 else {"k": "num", "v": 4}
-    elif kind in ("add_derived", "update_derived", "add_readout"):
+    elif kind in ("add_derived", "add_readout"):
         op["call"] = _rand_call(rnd, names)
+    elif kind == "update_derived":
+        op["call"], op["mode"] = _partial_call(rnd, names, m.get_raw_derived(as_copy=False).get(n))
     elif kind == "add_reaction":
         op["call"] = _rand_call(rnd, names)
         op["st"] = _rand_st(rnd, m)
     elif kind == "update_reaction":
-        op["call"] = {"fn": "none", "args": []} if rnd.random() < 0.4 else _rand_call(rnd, names)
+        if rnd.random() < 0.3:
+            op["call"], op["mode"] = {"fn": "none", "args": []}, "both"
+        else:
+            op["call"], op["mode"] = _partial_call(rnd, names, m.get_raw_reactions(as_copy=False).get(n))
         op["keepst"] = rnd.random() < 0.5
         op["st"] = {} if op["keepst"] else _rand_st(rnd, m)
     elif kind == "add_surrogate":
